@@ -39,8 +39,8 @@ impl App for LApp {
     fn update(&self, event: Ev, model: &mut Model, caps: &Caps) -> Command<Effect, Ev> {
         let start = |k: Kind, i: usize| -> TimerId {
             match k {
-                Kind::After => caps.time.notify_after(Duration::from_secs(2), move |r| Ev::Out(i, r)),
-                Kind::At => caps.time.notify_at(SystemTime::UNIX_EPOCH + Duration::from_secs(1_700_000_000), move |r| Ev::Out(i, r)),
+                Kind::After => caps.time.notify_after(vh::when::dur(i), move |r| Ev::Out(i, r)),
+                Kind::At => caps.time.notify_at(vh::when::at(i), move |r| Ev::Out(i, r)),
             }
         };
         match event {
